@@ -26,8 +26,11 @@
    gap is noticed: AppendOnlyTree.Reorg and the rollback callback of AddLeaf invalidate it (lastIndex = -2). (Before
    the fixes 246bc10 / 9d73352 they did not, and a gap of exactly the size of the leaves removed by a reorg went
    unnoticed; the two witness histories stay in the harness templates.)
-   Not modelled: database faults. (bridgesync returns ErrInconsistentState, without halting, for any AddLeaf error
-   that is not tree.ErrInvalidIndex; such errors need a failing database.) *)
+   Database faults are modelled where they matter for the property: a Reorg whose transaction fails after the block
+   rows were deleted (OpReorgFault: the tree purge fails, or the commit fails). Statement order of both Reorg methods:
+   delete block rows, (row count), tree purge(s), commit, and only THEN UnhaltIfAffectedRows; so a failed Reorg returns
+   the error, the transaction is rolled back and neither the rows nor the flag change.
+   Other database faults (in ProcessBlock) are not modelled; since 4209862 bridgesync returns them as they are. *)
 From Coq Require Import NArith List Bool String.
 Import ListNotations.
 Open Scope N_scope.
@@ -60,18 +63,25 @@ Definition eval_cmp (op : cmp_op) (a b : N) : bool :=
 Definition model_unhalt_op : cmp_op := CGt.
 Definition model_unhalt_const : N := 0.
 
+(* storage faults that hit a Reorg transaction AFTER `DELETE FROM block`:
+   FTree   = the purge of the tree's root table fails (fires iff a removed block had tree leaves: there is a root row to delete)
+   FCommit = the COMMIT fails (fires iff the transaction removed at least one block row) *)
+Inductive rfault := FTree | FCommit.
+
 (* one operation of a history *)
 Inductive op (input : Type) :=
 | OpBlock (num : N) (evs : input)   (* processor.ProcessBlock *)
 | OpReorg (b : N)                   (* processor.Reorg(firstReorgedBlock = b) *)
-| OpQuery.                          (* a facade method is called *)
-Arguments OpBlock {input}. Arguments OpReorg {input}. Arguments OpQuery {input}.
+| OpQuery                           (* a facade method is called *)
+| OpReorgFault (f : rfault) (b : N).  (* processor.Reorg(b) while a storage fault is armed *)
+Arguments OpBlock {input}. Arguments OpReorg {input}. Arguments OpQuery {input}. Arguments OpReorgFault {input}.
 
 Section Machine.
   Variable row : Type.              (* one row of table `block` with what the block added to the store *)
   Variable row_num : row -> N.
   Variable input : Type.            (* the events of one block *)
   Variable mem : Type.              (* in-memory state of the processor besides the flag (tree index cache) *)
+  Variable row_has_leaves : row -> bool.   (* the block added at least one leaf to the append-only tree *)
 
   (* the body of the ProcessBlock transaction after the block row was inserted *)
   Inductive apply_result :=
@@ -109,6 +119,28 @@ Section Machine.
        memory := on_reorg (memory st) |}.
 
   Definition reorg : N -> state -> state := reorg_with model_unhalt_op model_unhalt_const.
+
+  (* Reorg under an armed fault. `early` = the variant in which UnhaltIfAffectedRows is called right after the row
+     count, before the tree purge and the commit (NOT what the code does; kept to show what the source-fact obligation
+     src_reorg_statement_order protects against). *)
+  Definition fault_fires (f : rfault) (b : N) (st : state) : bool :=
+    let doomed := filter (fun r => b <=? row_num r) (rows st) in
+    match f with
+    | FCommit => negb (Nat.eqb (List.length doomed) 0)
+    | FTree => existsb row_has_leaves doomed
+    end.
+
+  Definition reorg_faulted_with (early : bool) (f : rfault) (b : N) (st : state) : outcome * state :=
+    if fault_fires f b st then
+      (* error returned, transaction rolled back: rows stay; the tree's in-memory index was already dropped when the
+         fault is at commit time (AppendOnlyTree.Reorg ran), not when the purge itself failed *)
+      (OOther, {| halted := if early && eval_cmp model_unhalt_op (deleted_rows b st) model_unhalt_const
+                            then false else halted st;
+                  rows := rows st;
+                  memory := match f with FCommit => on_reorg (memory st) | FTree => memory st end |})
+    else (OOk, reorg b st).
+
+  Definition reorg_faulted := reorg_faulted_with false.
 
   (* SELECT num FROM block ORDER BY num DESC LIMIT 1 (0 when empty) *)
   Definition last_block (st : state) : N := fold_right (fun r a => N.max (row_num r) a) 0 (rows st).
@@ -151,6 +183,7 @@ Section Machine.
     | OpBlock n e => process_block n e st
     | OpReorg b => (OOk, reorg b st)
     | OpQuery => (OOk, st)
+    | OpReorgFault f b => reorg_faulted f b st
     end.
 
   Fixpoint run (ops : list (op input)) (st : state) : state :=
@@ -222,8 +255,10 @@ Definition b_init : bstate := init brow bmem None.
 Definition b_process := process_block brow br_num (list bevent) bmem b_apply.
 (* AppendOnlyTree.Reorg: Tree.Reorg + lastIndex = -2 *)
 Definition b_on_reorg (_ : bmem) : bmem := None.
+Definition b_has_leaves (r : brow) : bool := match br_last r with Some _ => true | None => false end.
 Definition b_reorg := reorg brow br_num bmem b_on_reorg.
-Definition b_trace := trace brow br_num (list bevent) bmem b_apply b_on_reorg.
+Definition b_reorg_faulted := reorg_faulted brow br_num bmem b_has_leaves b_on_reorg.
+Definition b_trace := trace brow br_num (list bevent) bmem b_has_leaves b_apply b_on_reorg.
 
 (* the in-memory index agrees with the database (or was never initialised): then AddLeaf's first comparison is sound *)
 Definition b_synced (st : bstate) : Prop := memory st = None \/ memory st = Some (b_db_next (rows st)).
@@ -275,5 +310,7 @@ Definition lstate := state lrow unit.
 Definition l_init : lstate := init lrow unit tt.
 Definition l_process := process_block lrow lr_num (list levent) unit l_apply.
 Definition l_on_reorg (u : unit) : unit := u.
+Definition l_has_leaves (r : lrow) : bool := match lr_roots r with [] => false | _ => true end.
 Definition l_reorg := reorg lrow lr_num unit l_on_reorg.
-Definition l_trace := trace lrow lr_num (list levent) unit l_apply l_on_reorg.
+Definition l_reorg_faulted := reorg_faulted lrow lr_num unit l_has_leaves l_on_reorg.
+Definition l_trace := trace lrow lr_num (list levent) unit l_has_leaves l_apply l_on_reorg.
